@@ -7,6 +7,7 @@ Inspired by TT-Toolbox from MATLAB.
 import torchtt
 import torch as tn
 from torchtt._decomposition import rank_chop, QR, SVD
+from torchtt import _verif
 import datetime
 import opt_einsum as oe
 
@@ -77,6 +78,7 @@ def dmrg_matvec_python(A, x, y0 = None, nswp = 20, eps = 1e-12, rmax = 32768, ki
     N = x.N
     M = A.M
     r_enlarge = [2]*d
+    _verif.emit('dmrg_begin', routine='matvec', d=d, M=[int(m) for m in M], Ry=[int(r) for r in Ry], nswp=int(nswp), kick=int(kickrank))
 
     Phis = [tn.ones((1, 1, 1), dtype=A.cores[0].dtype, device=A.cores[0].device)] + \
         [None]*(d-1) + [tn.ones((1, 1, 1),
@@ -161,6 +163,7 @@ def dmrg_matvec_python(A, x, y0 = None, nswp = 20, eps = 1e-12, rmax = 32768, ki
               # ranks must remain valid
               r_new = min([r_new,S.shape[0],rmax[k+1]])
               r_new = max(1,r_new)
+              _r_svd = r_new
               
               # truncate the SVD matrices and spit into 2 cores
               W1 = U[:,:r_new]
@@ -183,6 +186,7 @@ def dmrg_matvec_python(A, x, y0 = None, nswp = 20, eps = 1e-12, rmax = 32768, ki
               # TME = datetime.datetime.now()
               if verb: print('\tcore ',k,': delta ',delta_cores[k],' rank ',Ry[k+1],' ->',r_new)
               Ry[k+1] = r_new 
+              _verif.emit('dmrg_step', sweep=int(i), k=int(k), rows=int(U.shape[0]), cols=int(V.shape[1]), r_svd=int(_r_svd), r_out=int(r_new), last=bool(last))
               # print(k,W1.shape,W2.shape,Ry,N)
               y_cores[k] = tn.conj(tn.reshape(W1,[Ry[k],M[k],r_new]))
               y_cores[k+1] = tn.conj(tn.reshape(W2,[r_new,M[k+1],Ry[k+2]]))
@@ -206,6 +210,7 @@ def dmrg_matvec_python(A, x, y0 = None, nswp = 20, eps = 1e-12, rmax = 32768, ki
 
         delta_cores_prev = delta_cores.copy()
 
+    _verif.emit('dmrg_end', Ry=[int(r) for r in Ry], sweeps=int(i)+1, last=bool(last))
     return torchtt.TT(y_cores)
 
               
@@ -267,6 +272,7 @@ def dmrg_hadamard_python(z, x, y0 = None, nswp = 20, eps = 1e-12, rmax = 32768, 
     N = x.N
     M = z.N
     r_enlarge = [2]*d
+    _verif.emit('dmrg_begin', routine='hadamard', d=d, M=[int(m) for m in M], Ry=[int(r) for r in Ry], nswp=int(nswp), kick=int(kickrank))
     
     Phis = [tn.ones((1,1,1), dtype=z.cores[0].dtype, device = z.cores[0].device)] + [None]*(d-1) + [tn.ones((1,1,1),dtype=z.cores[0].dtype, device = z.cores[0].device)]
     delta_cores = [1.0]*(d-1)
@@ -344,6 +350,7 @@ def dmrg_hadamard_python(z, x, y0 = None, nswp = 20, eps = 1e-12, rmax = 32768, 
               # ranks must remain valid
               r_new = min([r_new,S.shape[0],rmax[k+1]])
               r_new = max(1,r_new)
+              _r_svd = r_new
               
               # truncate the SVD matrices and spit into 2 cores
               W1 = U[:,:r_new]
@@ -366,6 +373,7 @@ def dmrg_hadamard_python(z, x, y0 = None, nswp = 20, eps = 1e-12, rmax = 32768, 
               # TME = datetime.datetime.now()
               if verb: print('\tcore ',k,': delta ',delta_cores[k],' rank ',Ry[k+1],' ->',r_new)
               Ry[k+1] = r_new 
+              _verif.emit('dmrg_step', sweep=int(i), k=int(k), rows=int(U.shape[0]), cols=int(V.shape[1]), r_svd=int(_r_svd), r_out=int(r_new), last=bool(last))
               # print(k,W1.shape,W2.shape,Ry,N)
               y_cores[k] = tn.conj(tn.reshape(W1,[Ry[k],M[k],r_new]))
               y_cores[k+1] = tn.conj(tn.reshape(W2,[r_new,M[k+1],Ry[k+2]]))
@@ -389,6 +397,7 @@ def dmrg_hadamard_python(z, x, y0 = None, nswp = 20, eps = 1e-12, rmax = 32768, 
         delta_cores_prev = delta_cores.copy()
         
         
+    _verif.emit('dmrg_end', Ry=[int(r) for r in Ry], sweeps=int(i)+1, last=bool(last))
     return torchtt.TT(y_cores)
               
 
